@@ -148,7 +148,8 @@ contract(
 # ---- NamespacedRefsContainer: the name translation of the view (every operation of the view goes through these two) ----
 from pyvc.contract import class_spec  # noqa: E402
 F = "dulwich/refs.py"
-class_spec(file=F, cls="NamespacedRefsContainer", fields={"_namespace_prefix": "bytes"})
+class_spec(file="<abstract>", cls="NsInnerRefs", fields={"stored": "bytes?"})      # the wrapped container (see read_loose_ref below)
+class_spec(file=F, cls="NamespacedRefsContainer", fields={"_namespace_prefix": "bytes", "_refs": "obj:NsInnerRefs"})
 _NS_SPECIAL = "(name == b'HEAD' or not (len(name) >= 5 and name[:5] == b'refs/'))"
 contract(
     prop=["C16"], file=F, func="NamespacedRefsContainer._apply_namespace",
@@ -171,4 +172,29 @@ lemma(
            ("back", (F, "NamespacedRefsContainer._strip_namespace"), ["c", "full"])],
     show=["back is not None", "back == name"],
     note="a name written through the view is found again under the same name: stripping undoes prefixing for every name and every namespace",
+)
+
+# read_loose_ref of the view: the stored target of a symbolic ref is presented relative to the namespace, everything else
+# is handed through unchanged.  The underlying container is abstract: ghost field `stored` = what it returns (any bytes or None).
+contract(prop=["C16"], file="<abstract>", func="NsInnerRefs.read_loose_ref@abs", trusted=True,
+         params={"self": "obj:NsInnerRefs", "name": "bytes"}, returns="bytes?", raises={ANY: None},
+         ensures=["(result is None) == (self.stored is None)", "result is None or result == self.stored"],
+         note="the wrapped container: returns the universally quantified ghost value `stored`")
+contract(prop=["C16"], file="<abstract>", func="Ref@idb", trusted=True, params={"x": "bytes"}, returns="bytes", raises={}, ensures=["result == x"],
+         note="typing.NewType: the identity at run time")
+_PFX = "self._namespace_prefix"
+_ST = "self._refs.stored"
+_INNS = f"(len({_ST}) >= 5 + len({_PFX}) and {_ST}[:5] == b'ref: ' and {_ST}[5:5 + len({_PFX})] == {_PFX})"
+contract(
+    prop=["C16"], file=F, func="NamespacedRefsContainer.read_loose_ref",
+    params={"self": "obj:NamespacedRefsContainer", "name": "bytes"}, returns="bytes?", raises={ANY: None},
+    requires=[f"len({_PFX}) >= 16 and {_PFX}[:16] == b'refs/namespaces/'"],
+    ensures=[
+        f"(result is None) == ({_ST} is None)",
+        # a symbolic target inside the namespace comes back with the prefix removed exactly once, so that following it
+        # through the view (which prefixes again) reaches the stored target; everything else is handed through
+        f"{_ST} is None or not {_INNS} or result == b'ref: ' + {_ST}[5 + len({_PFX}):]",
+        f"{_ST} is None or {_INNS} or result == {_ST}",
+    ],
+    options={"callee_contracts": {"Ref": ("<abstract>", "Ref@idb"), "NsInnerRefs.read_loose_ref": ("<abstract>", "NsInnerRefs.read_loose_ref@abs")}},
 )
